@@ -38,3 +38,11 @@ VARIANTS = [
       "            y_dup = y.repeat(m, 1)\n            g_dup = self.g(t, y_dup)\n            ga_flat = ga.permute(2, 0, 1).flatten(0, 1)\n            dg_ga_jvp, = misc.jvp(\n                outputs=g_dup,\n                inputs=y_dup,\n                grad_inputs=ga_flat,\n                create_graph=requires_grad,\n                allow_unused=True\n            )\n            dg_ga_jvp = dg_ga_jvp.reshape(m, batch_size, d, m).permute(1, 2, 0, 3)", expect="silent"),
     V("twin-default2-inline", BS, "        f, g = self.f_and_g(t, y)\n        return f, self.prod(g, v)", "        fg = self.f_and_g(t, y)\n        return fg[0], self.prod(fg[1], v)", expect="silent"),
 ]
+
+VARIANTS += [
+    # round-3 seed: misc.jvp "tidied" to return a bare tensor for a single output while one caller still indexes [0]
+    V("misc-jvp-returns-bare-tensor", "torchsde/_core/misc.py", "    return convert_none_to_zeros(_jvp, dummy_outputs)\n",
+      "    _jvp = convert_none_to_zeros(_jvp, dummy_outputs)\n    return _jvp[0] if len(_jvp) == 1 else _jvp\n", rule="R16"),
+    V("twin-misc-jvp-temporary", "torchsde/_core/misc.py", "    return convert_none_to_zeros(_jvp, dummy_outputs)\n",
+      "    out = convert_none_to_zeros(_jvp, dummy_outputs)\n    return out\n", expect="silent"),
+]
